@@ -840,6 +840,7 @@ func init() {
 	ex["(*sync.Once).doSlow"] = ex["(*sync.Once).Do"]
 	// sync.Pool: Get returns any object previously Put, or New() (DESIGN 3.2)
 	ex["(*sync.Pool).Get"] = func(fr *frame, a []value) value {
+		E.yield(false) // a synchronisation point: other goroutines may Put/Get in between
 		p := a[0].(*value)
 		items := E.pools[p]
 		n := len(items)
@@ -864,6 +865,7 @@ func init() {
 		return call(fr.i, fr, token.NoPos, newf, nil)
 	}
 	ex["(*sync.Pool).Put"] = func(fr *frame, a []value) value {
+		E.yield(false)
 		p := a[0].(*value)
 		if i, ok := a[1].(iface); ok && i.t == nil {
 			return nil
